@@ -138,8 +138,8 @@ def session_anomalies(case, out):
         return '+'.join(names) or 'none'
     where = fault_calls()
     exc = out['sessions'][-1]['exc']
-    if any(x['exc'] in ('ERuntime', 'EAssert') for x in out['sessions']):
-        res.append(('protocol-error-leaves-session:%s' % where, 'a RuntimeError (release of an unlocked lock) or AssertionError left the session (%s, faults [%s] = %s)' % (tag, faults, where)))
+    if any(x['exc'] == 'ERuntime' for x in out['sessions']):
+        res.append(('protocol-error-leaves-session:%s' % where, 'a RuntimeError (release of an unlocked lock) left the session (%s, faults [%s] = %s)' % (tag, faults, where)))
     elif not case.get('faults') and case.get('start') != 'fresh' and all(x['exc'] != 'none' for x in out['sessions'][-1:]) \
             and not any(op[0] == 'raise' for sh_ops in [[case['shape'], case['ops']]] + list(case.get('more', [])) for op in sh_ops[1]):
         res.append(('fault-free-session-fails:%s' % exc, 'a session without any injected fault and without a raising body ends with %s (%s)' % (exc, tag)))
